@@ -116,61 +116,32 @@ impl Router {
         if let Some(((_, path_rules), trie_matches)) =
             self.tree.lookup_with_path(hostname_b, true, trie_path)
         {
-            let mut prefix_length = 0;
-            let mut matched: Option<(&PathRule, &Route)> = None;
+            // Rank every matching rule instead of letting the scan order decide:
+            // an EQUALS/REGEX path with a method-specific rule wins outright,
+            // then EQUALS/REGEX with any method (EQUALS before REGEX in both
+            // cases), then the longest PREFIX, method-specific before
+            // method-agnostic at equal length. The first rule keeps the slot on
+            // an exact tie, so the result never depends on insertion order.
+            let mut matched: Option<((u8, usize, u8), &PathRule, &Route)> = None;
 
             for (rule, method_rule, route) in path_rules {
-                match rule.matches(path_b) {
-                    PathRuleResult::Regex | PathRuleResult::Equals => {
-                        match method_rule.matches(method) {
-                            MethodRuleResult::Equals => {
-                                return Ok(RouteResult::new_with_trie(
-                                    hostname_b,
-                                    trie_matches,
-                                    path_b,
-                                    rule,
-                                    route,
-                                ));
-                            }
-                            MethodRuleResult::All => {
-                                prefix_length = path_b.len();
-                                matched = Some((rule, route));
-                            }
-                            MethodRuleResult::None => {}
-                        }
-                    }
-                    PathRuleResult::Prefix(size) => {
-                        if size >= prefix_length {
-                            match method_rule.matches(method) {
-                                // FIXME: the rule order will be important here
-                                MethodRuleResult::Equals => {
-                                    // Longest-prefix wins: the selected
-                                    // length is monotonically non-decreasing
-                                    // across the candidate scan.
-                                    debug_assert!(
-                                        size >= prefix_length,
-                                        "longest-prefix selection must never shrink the match length",
-                                    );
-                                    prefix_length = size;
-                                    matched = Some((rule, route));
-                                }
-                                MethodRuleResult::All => {
-                                    debug_assert!(
-                                        size >= prefix_length,
-                                        "longest-prefix selection must never shrink the match length",
-                                    );
-                                    prefix_length = size;
-                                    matched = Some((rule, route));
-                                }
-                                MethodRuleResult::None => {}
-                            }
-                        }
-                    }
-                    PathRuleResult::None => {}
+                let method_rank = match method_rule.matches(method) {
+                    MethodRuleResult::Equals => 1u8,
+                    MethodRuleResult::All => 0u8,
+                    MethodRuleResult::None => continue,
+                };
+                let rank = match rule.matches(path_b) {
+                    PathRuleResult::Equals => (1, usize::from(method_rank), 1),
+                    PathRuleResult::Regex => (1, usize::from(method_rank), 0),
+                    PathRuleResult::Prefix(size) => (0, size, method_rank),
+                    PathRuleResult::None => continue,
+                };
+                if matched.as_ref().is_none_or(|(best, _, _)| rank > *best) {
+                    matched = Some((rank, rule, route));
                 }
             }
 
-            if let Some((path_rule, route)) = matched {
+            if let Some((_, path_rule, route)) = matched {
                 return Ok(RouteResult::new_with_trie(
                     hostname_b,
                     trie_matches,
